@@ -68,6 +68,8 @@ def printStep : TStep → List TVal → Option (Bytes × List TVal)
   | .name, .s t :: vs => some (sprintName t, vs)
   | .endStr up, .s t :: vs => some (if up then upperAscii t else t, vs)
   | .txt, .ss strs :: vs => some (sprintTxt strs, vs)
+  | .txtPair, .s a :: .s b :: vs => some (sprintTxt [a, b], vs)
+  | .txtFirst, .s a :: vs => some (sprintTxt [a], vs)
   | .blank, vs => some ([32], vs)
   | .slurp, vs => some ([], vs)
   | _, _ => none
@@ -106,6 +108,31 @@ def slurpRemainder : List Tok → Bool
   | t :: ts =>
     if t.value = zBlank then (match ts with | [] => true | u :: _ => u.value = zNewline)
     else t.value = zNewline
+
+/-- `strings.Fields` as far as ASCII goes: maximal runs of octets other than blank, tab, line feed, vertical tab, form feed
+    and carriage return (the other white space of Unicode is outside this model) -/
+def fieldsAux : Bytes → Bytes → List Bytes → List Bytes
+  | [], cur, acc => if cur.isEmpty then acc else acc ++ [cur]
+  | b :: r, cur, acc =>
+    if b == 32 || (9 ≤ b.toNat && b.toNat ≤ 13) then fieldsAux r [] (if cur.isEmpty then acc else acc ++ [cur])
+    else fieldsAux r (cur ++ [b]) acc
+
+def asciiFields (s : Bytes) : List Bytes := fieldsAux s [] []
+
+def joinBlank : List Bytes → Bytes
+  | [] => []
+  | [w] => w
+  | w :: rest => w ++ [32] ++ joinBlank rest
+
+/-- how HINFO and ISDN share the chunks out: none — both fields stay empty; one — split at white space when that gives more
+    than one word, else the second field is empty; the first chunk, and the others joined by blanks -/
+def pairOfChunks (chunks : List Bytes) : Bytes × Bytes :=
+  match chunks with
+  | [] => ([], [])
+  | [c] =>
+    let out := asciiFields c
+    if out.length > 1 then (out.headD [], joinBlank out.tail) else (c, [])
+  | c :: rest => (c, joinBlank rest)
 
 /-- the token a `c.Next()` delivers: the head of the list, or the end-of-input token -/
 def headTok : List Tok → Tok
@@ -149,6 +176,8 @@ def parsePlan (origin : Bytes) : List TStep → List Tok → List TVal → Optio
   | .blank :: rest, ts, acc => parsePlan origin rest ts.tail acc
   | .endStr _ :: _, ts, acc => (endingToString ts []).map (fun s => acc ++ [.s s])
   | .txt :: _, ts, acc => (TxtParse.endingToTxtSlice ts).map (fun ss => acc ++ [.ss ss])
+  | .txtPair :: _, ts, acc => (TxtParse.endingToTxtSlice ts).map (fun ss => acc ++ [.s (pairOfChunks ss).1, .s (pairOfChunks ss).2])
+  | .txtFirst :: _, ts, acc => (TxtParse.endingToTxtSlice ts).map (fun ss => acc ++ [.s (ss.headD [])])
   | .slurp :: _, ts, acc => if slurpRemainder ts then some acc else none
   | .other :: _, _, _ => none
 
